@@ -592,8 +592,8 @@ class Network(BaseModel):  # pylint: disable=too-many-public-methods
         """Generate the routing table for the network."""
         for rt in self.graph.get_rt_nodes():
             routing_table = []
-            ni_sbr_nodes = [ni for ni in self.graph.get_ni_nodes() if ni.is_sbr()]
-            for ni in ni_sbr_nodes:
+            # Responses are routed by the same tables, so manager-only endpoints need a rule too
+            for ni in self.graph.get_ni_nodes():
                 shortest_path = nx.shortest_path(self.graph, rt.name, ni.name)
                 out_edge = (rt.name, shortest_path[1])
                 out_link = self.graph.get_edge_obj(out_edge)
